@@ -761,6 +761,13 @@ def call_method(ip, st, recv, name, pos, kws, node):
         r = method_call(ip, st, recv, name, pos, kws)
         if r is not None:
             return r
+    if isinstance(recv, Opaque) and recv.sort == "V" and name == "replace" and len(pos) == 2 and not kws \
+            and isinstance(pos[0], Str) and isinstance(pos[1], Str) and pos[0].s == ".pdf" and pos[1].s == "":
+        # path.replace(".pdf", ""): the text is not modelled; it is the uninterpreted function `pdf_stem` of the value (the
+        # same symbol the contracts of PDFToPNG.run use), so two computations of it from one value agree
+        f = ip.reg.ufun("pdf_stem", ["V"], "Key")
+        ip.assumptions.add("str.replace('.pdf', '') of a flow value is the uninterpreted function pdf_stem of that value")
+        return [(st, Opaque(T("(%s %s)" % (f, recv.t.s), "Key")))]
     if isinstance(recv, Opaque) and recv.sort == "V" and name == "write" and len(pos) == 1 and "$fs" in st.notes:
         # a data object that writes itself to the given path: the file exists afterwards, its content is unspecified
         from .lib import need_fs, fs_store
